@@ -365,6 +365,27 @@ def run(ch, ctx, fault=None):
             vt.errors = []
             vt.hide_show = 0
             vt.r, vt.c = r0, 0
+            # the last frame of an earlier animation is still on the screen, on a line above
+            # this draw's region: it is "a cell outside the padded region" like any other
+            # (Kitty <= 0.25.0 excepted, where wiping earlier frames is the documented
+            # work-around)
+            earlier_digest = None
+            if sc.style == "kitty" and sc.animation and fits_screen and s_final == 0 \
+                    and r0 >= 1 and ch.bool("earlier_animation_frame_on_screen", 0.5):
+                from PIL import Image as _Image
+                from term_image.image import KittyImage as _Kitty
+                # (that z-index is reserved for animation frames: not to be had through a
+                # format specifier)
+                prev = format(_Kitty(_Image.new("RGB", (2, 2), (9, 90, 190)), width=1, height=1),
+                              "1.1+W").replace(",z=0,", ",z=-2147483648,")
+                vt.r, vt.c = 0, cols - 1
+                vt.feed(prev.encode())
+                vt.grid[0][cols - 1] = marker(0, cols - 1)
+                vt.r, vt.c = r0, 0
+                vt.errors = []
+                if vt.placements:
+                    earlier_digest = vt.placements[-1].digest
+                    ctx.probe("frame_of_an_earlier_animation_on_screen")
 
             def on_sleep(secs):
                 j = len(shown)
@@ -456,6 +477,14 @@ def run(ch, ctx, fault=None):
                 compare_inner(vt, sv, sc, top, inf, "old_api.return", "last_frame_not_in_place")
                 check_padding(vt, sc, top, inf, "old_api.return")
             dw.check_outside(vt, rows, s_final, (top, 0, top + H, W), inf, "old_api.return")
+            if earlier_digest is not None:
+                old_kitty = profile.name.lower() == "kitty" and tuple(
+                    int(x) for x in profile.version.split(".")[:3]) <= (0, 25, 0)
+                if not old_kitty:
+                    check(any(p.digest == earlier_digest and p.row == 0 for p in vt.placements),
+                          "picture_left_by_an_earlier_animation_was_deleted",
+                          lambda: dict(inf, placements=[(p.row, p.col) for p in vt.placements]),
+                          "old_api.return")
             check((vt.r, vt.c) == (min(rows - 1, top + H), 0),
                   "cursor_not_at_start_of_line_below",
                   lambda: dict(inf, cursor=(vt.r, vt.c), expected=(top + H, 0),
